@@ -407,6 +407,35 @@ fn main() {
             println!("missing={}", missing);
             println!("first_missing={}", first);
         }
+        // torn_first_manifest : the directory holds the torn beginning of the first manifest record (1, 6 or 12 of its 13 bytes) and no
+        // CURRENT - what a crash during the very first write of a new database leaves. The database must be created anyway, take
+        // writes, and open again
+        "torn_first_manifest" => {
+            use raindb::{ReadOptions, WriteOptions};
+            let mut results = vec![];
+            for torn in [1usize, 6, 12] {
+                let mut o = raindb::DbOptions::with_memory_env();
+                o.db_path = "db".to_string();
+                o.create_if_missing = true;
+                let fsys = o.filesystem_provider();
+                let _ = fsys.create_dir_all(std::path::Path::new("db"));
+                {
+                    let mut f = fsys.create_file(&v::manifest_path(&o, 1), false).unwrap();
+                    f.append(&vec![0x5au8; torn]).unwrap();
+                }
+                let first = match raindb::DB::open(o.clone()) {
+                    Ok(db) => { db.put(WriteOptions::default(), b"k".to_vec(), b"v".to_vec()).is_ok() }
+                    Err(_) => false,
+                };
+                let second = match raindb::DB::open(o.clone()) {
+                    Ok(db) => db.get(ReadOptions::default(), b"k").map(|v| v == b"v").unwrap_or(false),
+                    Err(_) => false,
+                };
+                results.push(format!("{}:{}:{}", torn, if first { "created" } else { "create-failed" }, if second { "reopened" } else { "reopen-failed" }));
+            }
+            println!("results={}", results.join(","));
+            println!("all_ok={}", results.iter().all(|r| r.ends_with("created:reopened")));
+        }
         // trivial_move n0 n1 : level 1 holds n0 (1..2) adjacent files which are the chosen inputs, level 2 holds n1 files that
         // overlap them; after the real input finalisation the manifest is asked whether this is a trivial move
         "trivial_move" => {
